@@ -657,7 +657,16 @@ func c07TailRun(r *vlib.Run, i int, fl *fleet, rng *rand.Rand) {
 						b.WriteString(c07Line(fl.Servers[s].Spec.Name, name, seq, 60+(seq%120)))
 						b.WriteByte('\n')
 					}
-					fds[s][f].Write(b.Bytes())
+					if f == 0 {
+						// this file's writer is block-buffered: its writes end in the middle of a line and the rest
+						// of the line follows a quarter of a second later (the follower polls in between)
+						cut := b.Len() - 6 - seq%50
+						fds[s][f].Write(b.Bytes()[:cut])
+						time.Sleep(260 * time.Millisecond)
+						fds[s][f].Write(b.Bytes()[cut:])
+					} else {
+						fds[s][f].Write(b.Bytes())
+					}
 					select {
 					case <-stop:
 						return
